@@ -129,8 +129,13 @@ def r09_2(ctx: Ctx) -> None:
     ctx.check(ok, "R09.2", f, lp, "recursive arm: skip iff neither exact match nor prefix match", "the recursive filter is not `not exact and not any(prefix)`", construct="recursive filter arm")
     # arm selection by the recursive flag
     arms = [n for n in walk(lp) if isinstance(n, ast.If) and "recursive" in norm(n.test)]
-    ok = any("recursive is False" in norm(a.test) for a in arms) and any("recursive is True" in norm(a.test) for a in arms)
-    ctx.check(ok, "R09.2", f, lp, "arms selected by the recursive flag", "filter arms are not selected by the recursive flag", construct="recursive flag arms")
+    def arm_is(t: ast.AST, flag: str) -> bool:
+        # `targets is not None and recursive is <flag>` (either order), nothing else: with `targets is None` the arm would never filter
+        return isinstance(t, ast.BoolOp) and isinstance(t.op, ast.And) and sorted(norm(v) for v in t.values) == sorted(["targets is not None", f"recursive is {flag}"])
+    ok = any(arm_is(a.test, "False") for a in arms) and any(arm_is(a.test, "True") for a in arms)
+    ctx.check(ok, "R09.2", f, lp, "arms selected by `targets is not None and recursive is False/True`",
+              "the filter arms of the member loop are not selected by `targets is not None and recursive is False` / `... is True`: with a condition such as `targets is None and "
+              "recursive is True` the recursive arm never filters and extract(targets=[...], recursive=True) delivers every member", construct="recursive flag arms")
 
 
 def r09_3(ctx: Ctx) -> None:
